@@ -117,6 +117,18 @@ impl<C: Config> Engine<C> {
     pub(in crate::engine::computation_graph) async fn acquire_active_input_session_guard(
         &self,
     ) -> (WriteTransaction<C>, ActiveInputSessionGuard) {
+        // take the exclusive phase lock first: the epoch must only change, and
+        // the session's write batch must only exist, while no reader is active
+        // (and no suspension point may follow the creation of the batch).
+        let guard = self
+            .computation_graph
+            .database
+            .sync
+            .phase_mutex
+            .clone()
+            .write_owned()
+            .await;
+
         let mut write_buffer = self
             .computation_graph
             .database
@@ -137,15 +149,6 @@ impl<C: Config> Engine<C> {
             .sync
             .timestamp_map
             .insert((), Timestamp(new_timestamp), &mut write_buffer)
-            .await;
-
-        let guard = self
-            .computation_graph
-            .database
-            .sync
-            .phase_mutex
-            .clone()
-            .write_owned()
             .await;
 
         (write_buffer, ActiveInputSessionGuard(Arc::new(guard)))
